@@ -1,4 +1,5 @@
 //! Correspondence harness: executes the line protocol against the real zvt code.
+mod client;
 mod codec;
 mod gen_dispatch;
 mod seq;
@@ -9,6 +10,9 @@ mod alloc;
 use alloc::{ALLOCATED, DEC_ALLOC};
 
 fn handle(line: &str) -> String {
+    if line.starts_with("client ") {
+        return client::run_client(line);
+    }
     let parts: Vec<&str> = line.split_whitespace().collect();
     match parts.as_slice() {
         ["len.ser", style, n] => match n.parse::<usize>() {
